@@ -125,6 +125,17 @@ Definition all_paths_dag (root : Z) (d : dag) : list path :=
   let raw := flat_map (fun x => flat_map (fun y => map (hops_of root) (dfs E fuel [] x y)) (d_targets d)) (d_sources d) in
   dedup (filter keep_path raw) [].
 
+(** sample < 1: numpy draws a sub-collection of the (source, target) pairs.  The draw is outside the model: it is an
+    arbitrary selection [sel] on the list of pairs (a parameter of the definition, no assumption here; the theorems
+    about it assume only [incl (sel l) l]). *)
+Definition dag_pairs (d : dag) : list (occ * occ) :=
+  flat_map (fun x => map (fun y => (x, y)) (d_targets d)) (d_sources d).
+Definition all_paths_dag_sel (sel : list (occ * occ) -> list (occ * occ)) (root : Z) (d : dag) : list path :=
+  let E := d_edges d in
+  let fuel := S (length (dag_nodes E)) in
+  let raw := flat_map (fun xy => map (hops_of root) (dfs E fuel [] (fst xy) (snd xy))) (sel (dag_pairs d)) in
+  dedup (filter keep_path raw) [].
+
 Inductive paths_res := PathsOk (l : list path) | PathsValueError.
 
 Definition time_respecting_paths (g : graph) (u : Z) (v : option Z) (start end_ : option Z) : paths_res :=
@@ -132,6 +143,14 @@ Definition time_respecting_paths (g : graph) (u : Z) (v : option Z) (start end_ 
   else match temporal_dag g u v start end_ with
        | DagValueError => PathsValueError
        | DagOk d => PathsOk (all_paths_dag u d)
+       end.
+
+Definition time_respecting_paths_sel (sel : list (occ * occ) -> list (occ * occ))
+                                     (g : graph) (u : Z) (v : option Z) (start end_ : option Z) : paths_res :=
+  if negb (has_node g u start) then PathsOk []
+  else match temporal_dag g u v start end_ with
+       | DagValueError => PathsValueError
+       | DagOk d => PathsOk (all_paths_dag_sel sel u d)
        end.
 
 (** all_time_respecting_paths: one query per node present at min_t; keyed (u, last node) -- the list of
